@@ -4,7 +4,7 @@ from vlib.core import Case
 PROP = "C13"
 SPEC_MODE = "spec"
 KEEP_PREFIX = 0
-SIZES = {"quick": 1500, "thorough": 40000}
+SIZES = {"quick": 3000, "thorough": 150000}
 BATCH = 1500
 RULE = ("op sequences (load / loadres / clear / clearres) over flow, isolation, hotspot, circuit breaker, system, outlier; rule lists mix valid rules "
         "(boundary thresholds), one invalid rule per IsValidRule clause, nil elements, a small slice of foreign-resource and unbuildable rules, "
